@@ -164,7 +164,11 @@ impl W {
                 // C header
                 let k = rng.range(1, 6);
                 let name = format!("h{}.h", n);
-                let body: String = (0..k).map(|i| format!("unsigned char hv{}_{};\n", n, i)).collect();
+                let mut body: String = (0..k).map(|i| format!("unsigned char hv{}_{};\n", n, i)).collect();
+                if rng.chance(1, 3) {
+                    body.pop(); // last line without a newline
+                    self.constructs.push("#include of a C header that does not end in a newline".into());
+                }
                 files.push((name.clone(), body));
                 self.line(&format!("#include \"{}\"", name));
                 self.dropped -= k - 1;
